@@ -716,6 +716,7 @@ func main() {
 	repo := flag.String("repo", "/repo", "path of the library")
 	outp := flag.String("out", "Sites_gen.v", "Coq output")
 	rep := flag.String("report", "", "JSON report")
+	scratchOut := flag.String("scratch", "", "Coq output of the scratch pass (Scratch_gen.v)")
 	flag.Parse()
 	fset := token.NewFileSet()
 	var dirs []string
@@ -864,13 +865,24 @@ func main() {
 		fmt.Fprintln(os.Stderr, err)
 		os.Exit(2)
 	}
+	var scr []scratchRec
+	var cfs []cloneFieldRec
+	if *scratchOut != "" {
+		var serrs []string
+		scr, cfs, serrs = scratchPass(*repo)
+		parseErrors = append(parseErrors, serrs...)
+		if err := writeScratch(*scratchOut, scr, cfs); err != nil {
+			fmt.Fprintln(os.Stderr, err)
+			os.Exit(2)
+		}
+	}
 	if *rep != "" {
 		n := 0
 		for _, s := range sites {
 			n += len(s.Acc)
 		}
 		b, _ := json.MarshalIndent(map[string]interface{}{"ok": len(parseErrors) == 0 && len(sites) > 0, "closures": len(sites), "accesses": n,
-			"parse_errors": parseErrors, "sites": sites}, "", " ")
+			"parse_errors": parseErrors, "sites": sites, "scratch_methods": len(scr), "clone_fields": cfs}, "", " ")
 		os.WriteFile(*rep, b, 0644)
 	}
 	if len(parseErrors) > 0 {
